@@ -354,7 +354,7 @@ func c07Abandon(ctx *core.Ctx, c c07Case) {
 	case "disconnect":
 		p.Close()
 	case "srvclose":
-		rig.Srv.Close()
+		rig.CloseBounded()
 	}
 	if c.Abandon == "RSET" || c.Abandon == "HELLO" {
 		r, _ := p.Cmd("QUIT")
